@@ -15,6 +15,8 @@ KEYSETS = {
     'eddsa+ecdh-kdf': ('ed25519a', ['cv25519a@10.9', 'ecdh_p384a@9.9']),
     # P-521 points whose coordinates have leading zero octets (fixed 66-octet fields)
     'ecdsa+ecdh-p521': ('ecdsa_p521b', ['ecdh_p521b']),
+    # RSA material under the deprecated algorithm ids 3 (sign-only) and 2 (encrypt-only), as older producers wrote them
+    'rsa-legacy-ids': ('rsa1024a#3', ['rsa1024b#2']),
 }
 PASSES = [('ascii', 'a'), ('ascii40', 'The quick brown fox jumps over lazy dogs.'), ('utf8', 'pässwörd 密碼 \U0001F511'), ('long', 'x' * 1000)]
 HASH_ID = {'MD5': 1, 'SHA1': 2, 'RIPEMD160': 3, 'SHA256': 8, 'SHA384': 9, 'SHA512': 10, 'SHA224': 11}
@@ -37,7 +39,7 @@ def build(ks, uid=True):
     raws = [raw]
     for s in subs:
         r = sub_raw(s)
-        usage = {KeyFlags.EncryptCommunications} if r['alg'] == 'ecdh' or s == 'rsa1024b' else {KeyFlags.Sign}
+        usage = {KeyFlags.EncryptCommunications} if r['alg'] == 'ecdh' or s.startswith('rsa1024b') else {KeyFlags.Sign}
         key.add_subkey(K.pgpy_secret(r), usage=usage, created=K.dt(K.T0 + 1))
         raws.append(r)
     return key, raws
@@ -171,7 +173,8 @@ class Prop(object):
             ok, why = rsig.verify(body, {'doc': doc}, signer[0])
             if not ok:
                 probs.append('signature made while unlocked is rejected by the reference: ' + why)
-        encsub = [x for x in raws[1:] if x['alg'] in ('ecdh',) or (x['alg'] == 'rsa' and x.get('name') in ('rsa1024b',))]
+        # (PGPy does not make session-key packets for the deprecated encrypt-only id 2: such a subkey is held and exported, not encrypted to)
+        encsub = [x for x in raws[1:] if x['alg'] in ('ecdh',) or (x['alg'] == 'rsa' and str(x.get('name')).startswith('rsa1024b') and not x.get('algid'))]
         if encsub:
             m = pgpy.PGPMessage.new(b'decrypt me', compression=pgpy.constants.CompressionAlgorithm.Uncompressed, format='b')
             pub = key.pubkey
